@@ -320,6 +320,46 @@ theorem accept_first_named (d : Nat) (e rest : Str) (f : Nat) (hc : 44 ∉ e) (h
     have : e ++ 44 :: rest ≠ [] := by simp
     simp [this, splitOn_append 44 e rest hc, hclean, hl]
 
+/-- Position independence, for lists of every length: in a header of any number of elements the first element that
+    names a supported format decides — however many elements that name no supported format precede it (wildcards
+    included), whatever follows it, and whatever the default is. (`accept_first_named` is the case `pre = []`.) -/
+theorem accept_named_at_any_position (d : Nat) (pre post : List Str) (e : Str) (f : Nat)
+    (hpre : ∀ x ∈ pre, 44 ∉ x ∧ lookup (cleanMime x) mimeTypeToFormat = none)
+    (hc : 44 ∉ e) (hpost : ∀ x ∈ post, 44 ∉ x) (h : NamesFormat e f) :
+    formatFromAccept d (joinComma (pre ++ e :: post)) = f := by
+  obtain ⟨sub, hsub, hl⟩ := h
+  have hclean := cleanMime_element e sub hsub
+  have hne : e ≠ [] := by
+    obtain ⟨ws, pre', tail, he, _, _, hs, _, _⟩ := hsub
+    intro h0
+    rw [h0] at he
+    have : sub = [] := by
+      have := congrArg List.length he
+      simp at this
+      exact List.eq_nil_of_length_eq_zero (by omega)
+    exact hs this
+  have hall : ∀ x ∈ pre ++ e :: post, 44 ∉ x := by
+    intro x hx
+    rcases List.mem_append.mp hx with hx | hx
+    · exact (hpre x hx).1
+    · rcases List.mem_cons.mp hx with rfl | hx
+      · exact hc
+      · exact hpost x hx
+  have hfind : (pre ++ e :: post).findSome? (fun e => lookup (cleanMime e) mimeTypeToFormat) = some f := by
+    have hnone : pre.findSome? (fun e => lookup (cleanMime e) mimeTypeToFormat) = none := by
+      rw [List.findSome?_eq_none_iff]
+      intro x hx
+      exact (hpre x hx).2
+    rw [List.findSome?_append, hnone]
+    simp [hclean, hl]
+  apply formatFromAccept_hit d _ f (joinComma_ne_nil pre post e hne)
+  rw [splitOn_joinComma _ (by simp) hall]
+  exact hfind
+
+/-- The list of elements `FormatFromAccept` iterates over is `strings.Split(accept, ",")` in the source (regenerated
+    on every run; the extractor fails closed on any other call, e.g. `SplitN` with a limit): every element, in order. -/
+theorem accept_split_matches_source : PB.Gen.Dsd.acceptSplit = ("strings.Split", [44]) := by decide
+
 /-! ### HTTP: the content type names the encoding actually used; the other side recovers an equal value -/
 
 /-- `MimeDump` returns the format `FormatFromAccept` chose under the CURRENT default, that format's mime type
@@ -493,6 +533,21 @@ example : formatFromAccept JSON (str "text/xml, text/other") = AUTO ∧
     formatFromAccept YAML [] = YAML ∧ formatFromAccept MsgPack (str "*/*") = MsgPack := by decide
 /-- whitespace before `;` is not accepted (pinned by the package's own test) -/
 example : formatFromAccept JSON (str "yaml ;charset") = AUTO := by decide
+-- nine and more elements: the decisive element is the 8th / 9th / 12th, what precedes it names nothing
+set_option maxRecDepth 16000 in
+example : formatFromAccept JSON (str "text/html,application/xhtml+xml,application/xml;q=0.9,image/avif,image/webp,image/apng,image/svg+xml,application/cbor,*/*;q=0.1") = CBOR := by decide
+set_option maxRecDepth 16000 in
+example : formatFromAccept YAML (str "text/html, application/xhtml+xml, application/xml;q=0.9, image/avif, image/webp, image/apng, image/svg+xml, text/plain, */*") = YAML := by decide
+set_option maxRecDepth 16000 in
+example : formatFromAccept JSON (str "a/b,c/d,e/f,g/h,i/j,k/l,m/n,o/p,q/r,s/t,u/v,application/msgpack;q=0.5,w/x") = MsgPack ∧
+    formatFromAccept JSON (str "a/b,c/d,e/f,g/h,i/j,k/l,m/n,o/p,q/r,s/t,u/v,w/x") = AUTO := by decide
+-- the hypotheses of `accept_named_at_any_position` are satisfiable for every number of preceding elements
+example (n : Nat) (d : Nat) :
+    formatFromAccept d (joinComma (List.replicate n (str "image/webp;q=0.8") ++ str "application/cbor" :: [str "*/*"])) = CBOR :=
+  accept_named_at_any_position d _ _ _ _
+    (by intro x hx; rw [List.eq_of_mem_replicate hx]; decide) (by decide) (by decide)
+    ⟨str "cbor", ⟨[], str "application/", [], by decide, by decide, Or.inr ⟨str "application", by decide, by decide⟩,
+      by decide, by decide, Or.inl (by decide)⟩, by decide⟩
 /-- Unicode: KELVIN SIGN lower-cases to `k`; NO-BREAK SPACE and IDEOGRAPHIC SPACE are trimmed -/
 example : formatFromAccept JSON (str "application/msgpac\u212a") = MsgPack ∧
     formatFromAccept JSON (str "\u00a0json\u3000") = JSON := by decide
